@@ -7,6 +7,8 @@
 From Coq Require Import List Arith Bool.
 From M Require Import Base Flat Hsm HsmSpec.
 From P Require Import HsmForest HsmResolve HsmReach HsmInit.
+From M Require HReent.
+From P Require HReentInv.
 Import ListNotations.
 
 Section C02.
@@ -104,6 +106,20 @@ Theorem C02_initial_config_closed :
     closed hm (chain_tree ini (initial_tree def_depth_bound d)).
 Proof. exact initial_config_closed. Qed.
 Print Assumptions C02_initial_config_closed.
+
+(* Unqueued machines whose callbacks trigger further events (processed inside the callback, to any depth):
+   whatever the callbacks do, after every event - nested ones included - the configuration has unique
+   sibling names, names only registered states and ends in states without initial substates.  (The
+   engine writes a resolution computed BEFORE the exit callbacks AFTER them; every configuration it
+   ever holds is nevertheless the result of resolving a configuration it held earlier.) *)
+Theorem C02_reentrant_invariants :
+  forall (hm : hmachine) (ev : env) (m : model) (fuel : nat) (e : event) (a p : nat) (f : forest) tr f' r,
+    wf_defs hm = true -> depth_ok hm ->
+    uniq f = true -> reg hm f -> closed hm f ->
+    HReent.hrtrigger hm ev m fuel e a p f = (tr, f', r) ->
+    uniq f' = true /\ reg hm f' /\ closed hm f'.
+Proof. exact HReentInv.hreent_invariants. Qed.
+Print Assumptions C02_reentrant_invariants.
 
 (* non-vacuity: a transition between two regions' states in a parallel state *)
 Example C02_example :
